@@ -132,7 +132,9 @@ func jsonExec1(line string) (out string, fails []common.Failure) {
 }
 
 var jsonNameToks = []string{"", "", "a", "name", "fooBar", "-", "x-y", "a.b", "9", "é", "a b", " ", "a\"b", "a\\b", "_", "~", "omitempty", "inline", "世", "a'b", "a`b"[:1] + "c"}
-var jsonOptToks = []string{"omitempty", "inline", "string", "omitemptyx", "inlined", "xinline", "", " omitempty", "omitempty ", "Inline", "OMITEMPTY", "omitzero", "-"}
+var jsonOptToks = []string{"omitempty", "inline", "string", "omitemptyx", "inlined", "xinline", "", " omitempty", "omitempty ", "Inline", "OMITEMPTY", "omitzero", "-",
+	// option words glued together or repeated without a comma are one unknown word
+	"omitemptyomitempty", "inlineinline", "noinlineinline", "omitemptyinline", "inlineomitempty"}
 
 func jsonGen(c *common.Ctx) {
 	corpus := [][2]string{{"F", `json:"-"`}, {"F", `json:"-,"`}, {"F", `json:",inline"`}, {"F", `json:"foo,inline"`},
